@@ -268,6 +268,9 @@ def crash_fn(a, tier):
 
     _, exc, k = run(main, chooser=tape)
     summary = {"context": "nested" if nested else "root", "crash_after_checkpoints": when, "another_service_running": bool(others), "schedule": tape.taken}
+    if "crash" not in log:
+        # under this schedule the task was stopped by its finalizer before it got to raise
+        return OK(summary, nontrivial=False) if exc is None else FAIL("crash:exception-without-a-crash", repr(exc), summary)
     if exc is None:
         return FAIL("crash:exception-vanished", log, summary)
     if exc is not boom and flatten(exc) != [boom]:
